@@ -611,6 +611,12 @@ int BaseKillPlugin::tryToKillPids(const std::vector<int>& pids) {
   int nrKilled = 0;
 
   for (int pid : pids) {
+    // cgroup.procs lists 0 for a process that lives in a pid namespace we
+    // cannot see; kill(0, sig) (or a negative pid) would signal a whole
+    // process group, starting with our own
+    if (pid <= 0) {
+      continue;
+    }
     auto commPath = std::string("/proc/") + std::to_string(pid) + "/comm";
     auto comm = Fs::readFileByLine(commPath);
 
